@@ -1,5 +1,6 @@
 import Driver.Wire
 import Sio.Model.CodecSpec
+import Sio.Model.JsonParse
 open Lean (Json)
 namespace Sio.KCodec
 open Sio.Wire
@@ -106,6 +107,12 @@ def step (_ : Unit) (j : Json) : Except String (Unit × Json) := do
           | some r => Json.mkObj [("some", jToJson r)]
           | none => Json.mkObj [("missing", Json.bool true)]
       pure ((), Json.mkObj [("pkt", packetToJson p), ("natt", Json.num n), ("filled", filled)])
+  else if op == "jloads" then
+    -- the concrete Lean JSON reader (Sio/Model/JsonParse.lean) on a text
+    let text ← strOfJson (← j.getObjVal? "text")
+    match J.loads text with
+    | .error e => pure ((), excJson e)
+    | .ok v => pure ((), Json.mkObj [("value", jToJson v)])
   else throw s!"unknown op {op}"
 
 def main : IO Unit := lineLoop () step
